@@ -65,7 +65,11 @@ Abstract-syntax rules (reference `abstract.js`), implemented in the second half 
   blank lines are dropped); the indent of every `block_text` and `block_placeable` (0 for a placeable
   in column 0) takes part in the common indent = the minimum over them; that many spaces are
   removed from each indent, the remainder is text; adjacent text elements are joined; the first
-  element loses leading `\n`s, the last loses trailing spaces; empty text elements are dropped.
+  element loses leading `\n`s, the last loses trailing white space — space, `\n` and `\r`: this
+  follows the reference implementation's `trailingWSRe = /[ \n\r]+$/` (the EBNF does not speak
+  about trimming; a lone `\r` is a `text_char`, but at the very end of a pattern it is trimmed like
+  a space) —; empty text elements are dropped; a pattern left without any element is no pattern
+  (the `Pattern` production fails, e.g. `t=\r` is Junk).
 * Adjacent comment lines of one level are one comment; a `#` comment directly followed by a
   Message/Term (no blank line between) is attached to it.
 * Rejected (the production fails, so the entry ends up as Junk): a term attribute as a placeable's
@@ -255,21 +259,25 @@ def commentChars : Inp → Bytes × Inp
   | b :: r => let (t, rest) := commentChars r; (b :: t, rest)
   | [] => ([], [])
 
+/-- `("###" | "##" | "#")` → (level, rest) -/
+def commentMarker : Inp → Option (Nat × Inp)
+  | 35 :: 35 :: 35 :: r => some (3, r)
+  | 35 :: 35 :: r => some (2, r)
+  | 35 :: r => some (1, r)
+  | _ => none
+
+/-- `(" " comment_char*)?` → (content, rest) -/
+def commentBody : Inp → Bytes × Inp
+  | 32 :: r' => commentChars r'
+  | r => ([], r)
+
 /-- `CommentLine ::= ("###" | "##" | "#") (" " comment_char*)? line_end` → (level, content) -/
 def commentLine (i : Inp) : Option ((Nat × Bytes) × Inp) :=
-  let lvl : Option (Nat × Inp) := match i with
-    | 35 :: 35 :: 35 :: r => some (3, r)
-    | 35 :: 35 :: r => some (2, r)
-    | 35 :: r => some (1, r)
-    | _ => none
-  match lvl with
+  match commentMarker i with
   | none => none
   | some (l, r) =>
-    let (content, r1) : Bytes × Inp := match r with
-      | 32 :: r' => commentChars r'
-      | _ => ([], r)
-    match lineEnd r1 with
-    | some r2 => some ((l, content), r2)
+    match lineEnd (commentBody r).2 with
+    | some r2 => some ((l, (commentBody r).1), r2)
     | none => none
 
 /-- `junk_line ::= /[^\n]*/ ("\n" | EOF)` -/
@@ -362,11 +370,14 @@ def joinAdjacent : List (PatElem Bytes) → List (PatElem Bytes)
      | rest' => .text a :: rest')
   | e :: rest => e :: joinAdjacent rest
 
-def dropTrailingSpaces (t : Bytes) : Bytes := (t.reverse.dropWhile (· == 32)).reverse
+/-- white space removed at the end of a pattern (reference `trailingWSRe = /[ \n\r]+$/`) -/
+def isTrailingWs (b : UInt8) : Bool := b == 32 || b == 10 || b == 13
+
+def dropTrailingWs (t : Bytes) : Bytes := (t.reverse.dropWhile isTrailingWs).reverse
 
 def trimLast : List (PatElem Bytes) → List (PatElem Bytes)
   | [] => []
-  | [.text t] => [.text (dropTrailingSpaces t)]
+  | [.text t] => [.text (dropTrailingWs t)]
   | [e] => [e]
   | e :: rest => e :: trimLast rest
 
@@ -385,6 +396,20 @@ def finishPattern (els : List RawEl) : Pattern Bytes :=
 
 def newlines (c : Nat) : Bytes := List.replicate c 10
 
+/-- `block_text ::= blank_block blank_inline indented_char inline_text?` → raw elements: the line
+breaks, the indent, the text -/
+def blockText (i : Inp) : Option (List RawEl × Inp) :=
+  match blankBlock i with
+  | some (c, r1) =>
+    (match blankInline r1 with
+     | some r2 =>
+       if startsIndentedChar r2 then
+         let (t, r3) := textRun r2
+         some ([.text (newlines c), .indent (r1.length - r2.length), .text t], r3)
+       else none
+     | none => none)
+  | none => none
+
 /-! ## the recursive productions (fuel) -/
 
 inductive PR (α : Type) where
@@ -399,8 +424,7 @@ def pattern : Nat → Inp → PR (Pattern Bytes)
   | 0, _ => .fuel
   | n + 1, i =>
     match patternElements n i with
-    | .ok [] _ => .fail
-    | .ok els r => .ok (finishPattern els) r
+    | .ok els r => if (finishPattern els).isEmpty then .fail else .ok (finishPattern els) r
     | .fail => .fail
     | .fuel => .fuel
 
@@ -425,19 +449,8 @@ def patternElement : Nat → Inp → PR (List RawEl)
     match textRun i with
     | (b :: t, r) => .ok [.text (b :: t)] r
     | ([], _) =>
-      -- block_text ::= blank_block blank_inline indented_char inline_text?
-      let blockText : Option (List RawEl × Inp) :=
-        match blankBlock i with
-        | some (c, r1) =>
-          (match blankInline r1 with
-           | some r2 =>
-             if startsIndentedChar r2 then
-               let (t, r3) := textRun r2
-               some ([.text (newlines c), .indent (r1.length - r2.length), .text t], r3)
-             else none
-           | none => none)
-        | none => none
-      match blockText with
+      -- block_text
+      match blockText i with
       | some (els, r) => .ok els r
       | none =>
         -- inline_placeable
